@@ -399,6 +399,11 @@ func c16Worker(sh *explore.Shard) {
 			n++
 			return true
 		})
+		// object ids written with upper-case hex digits (git reads them, fsck accepts them)
+		up := strings.ToUpper
+		c16CheckCommit(sh, []byte("tree "+up(hexA)+"\nparent "+up(hexB)+"\nparent "+hexB[:20]+up(hexB[20:])+"\nauthor A <a@x> 1 +0000\ncommitter C <c@x> 1 +0000\n\nmessage\n"), "upper-case ids")
+		c16CheckTag(sh, []byte("object "+up(hexA)+"\ntype commit\ntag v1\ntagger T <t@x> 1 +0000\n\nmessage\n"), "upper-case ids")
+		n += 2
 		tlines := []string{"object " + hexA + "\n", "type commit\n", "tag v1\n", "tagger T <t@x> 1 +0000\n"}
 		explore.Perm(len(tlines), func(pm []int) bool {
 			var b strings.Builder
@@ -506,6 +511,6 @@ func repeatArgs(s string, n int) []any {
 
 func init() {
 	Registry["C16"] = &Check{Level: "exploration", Worker: c16Worker, QuickBudget: 70 * time.Second, ThoroughBudget: 10 * time.Minute,
-		Rule:        "(a) totality: all strings of <=6 (quick) / <=7 (thorough) tokens over a 9-token tree alphabet (valid/invalid modes, SP, NUL, 20 and 19 raw bytes, LF) and a 12-token header alphabet (tree/parent/object/type keys, 40- and 39-hex ids, LF, SP continuation, gpgsig) fed to ParseTree+TreeIter, ParseCommit and ParseTag under a recover/iteration watchdog, compared with reference parsers (must accept what the reference accepts with identical entries/headers; every returned entry must be a substring of the input); (b) losslessness: generated well-formed trees (every non-NUL byte except '/' in four name positions x six modes, re-serialisation must reproduce the object) and commits/tags (0..3 parents x pairs of gpgsig/mergetag/encoding/unknown header blocks with tree/parent look-alike continuation lines x messages imitating headers x no message; every order of the header lines of a 2-parent signed commit (720) and of a tag (24)); (c) listings: every byte prefix of every for-each-ref line through ParseReference, and every truncation point of the for-each-ref / rev-list / cat-file --batch-check / --batch streams inside the real in-process pipelines (exit status 1 and 128): the scan must end with a result or an error, never a panic (a panic in a pipeline goroutine kills the worker and is reported as a crash). non-trivial = token-string blocks, generated objects and truncation points",
+		Rule:        "(a) totality: all strings of <=6 (quick) / <=7 (thorough) tokens over a 9-token tree alphabet (valid/invalid modes, SP, NUL, 20 and 19 raw bytes, LF) and a 12-token header alphabet (tree/parent/object/type keys, 40- and 39-hex ids, LF, SP continuation, gpgsig) fed to ParseTree+TreeIter, ParseCommit and ParseTag under a recover/iteration watchdog, compared with reference parsers (must accept what the reference accepts with identical entries/headers; every returned entry must be a substring of the input); (b) losslessness: generated well-formed trees (every non-NUL byte except '/' in four name positions x six modes, re-serialisation must reproduce the object) and commits/tags (0..3 parents x pairs of gpgsig/mergetag/encoding/unknown header blocks with tree/parent look-alike continuation lines x messages imitating headers x no message; every order of the header lines of a 2-parent signed commit (720) and of a tag (24); object ids in upper-case hex); (c) listings: every byte prefix of every for-each-ref line through ParseReference, and every truncation point of the for-each-ref / rev-list / cat-file --batch-check / --batch streams inside the real in-process pipelines (exit status 1 and 128): the scan must end with a result or an error, never a panic (a panic in a pipeline goroutine kills the worker and is reported as a crash). non-trivial = token-string blocks, generated objects and truncation points",
 		Assumptions: []string{"bounded-exhaustive over a token alphabet, not coverage-guided fuzzing over all bytes (no fuzzing engine decides anything here); bytes outside the alphabets are represented by the 'x' token and by the all-bytes name generator"}}
 }
